@@ -159,7 +159,7 @@ def search(ctx):
         fb = _flat_field(calc_field(detp, Spheres(PROBE[::-1], warn=False), illum_polarization=(1, 0), theory=Multisphere(), **OPT))
         ctx.tried("order-probe", ("large-close-spheres",))
         dev = float(np.abs(fa - fb).max() / np.abs(fa).max())
-        if dev > 1e-2:
+        if not (dev <= 1e-2):
             ctx.violation("C09:order:large-close-spheres", "four close spheres of size parameter 4.6-11 listed in reverse order: the multi-sphere field changes by %.0f%% although the solver reports convergence" % (100 * dev),
                           dict(kind="order-probe", dev=dev))
     except Exception as ex:
@@ -185,7 +185,7 @@ def search(ctx):
             for p in perms[1:]:
                 fp = _flat_field(calc_field(det, Spheres([members[j] for j in p], warn=False), illum_polarization=pol, theory=th(), **OPT))
                 dev = float(np.abs(fp - f0).max() / scale)
-                if dev > 1e-3:
+                if not (dev <= 1e-3):
                     ctx.violation("C09:order", "listing the spheres in the order %r changes the multi-sphere field by %.3g (converged solver)" % (p, dev), dict(perm=list(p), **info))
                     break
             # rotation of the whole configuration about the optical axis
@@ -195,7 +195,7 @@ def search(ctx):
             xr_, yr_ = zip(*[rotz((x, y, 0), a)[:2] for x, y in zip(det.x.values, det.y.values)])
             fr = calc_holo(detector_points(x=np.array(xr_), y=np.array(yr_), z=0.0), Spheres(rm, warn=False), illum_polarization=rotz((pol[0], pol[1], 0), a)[:2], theory=th(), **OPT).values
             h0 = calc_holo(det, Spheres(members, warn=False), illum_polarization=pol, theory=th(), **OPT).values
-            if float(np.abs(fr - h0).max()) > 1e-4 * max(1.0, float(np.abs(h0).max())):
+            if not (float(np.abs(fr - h0).max()) <= 1e-4 * max(1.0, float(np.abs(h0).max()))):
                 ctx.violation("C09:rotation", "rotating the cluster, detector and polarisation by %.4f changes the hologram by %.3g" % (a, np.abs(fr - h0).max()), dict(angle=a, **info))
             # 'auto' == naming the rule's theory explicitly
             ctx.tried("auto", (m, i))
